@@ -59,15 +59,16 @@ Definition e_early := EOther (S_ "early-expansion").
 Definition ch_qmark : ascii := "?"%char.
 Definition ch_minus : ascii := "-"%char.
 
-(* dependency_from_string: indexes byte 0 — Panic 20 on the empty string *)
+(* dependency_from_string: looks at the first byte if there is one (after the C15 fix; the pinned
+   code indexed byte 0 and panicked on the empty string) *)
 Definition dependency_from_string (s : str) : res dep :=
   match s with
-  | [] => Panic 20
+  | [] => Ok (Hard [])
   | c :: t => Ok (if Ascii.eqb c ch_qmark then Soft t else Hard s)
   end.
 Definition dependency_from_string_if (s other : str) : res dep :=
   match s with
-  | [] => Panic 20
+  | [] => Ok (IfThenHard other [])
   | c :: t => Ok (if Ascii.eqb c ch_qmark then IfThenSoft other t else IfThenHard other s)
   end.
 
@@ -153,9 +154,18 @@ Definition optsrc_add (acc : list (str * list str)) (kv : str * list str) : list
   ainsert (fst kv) (odflt [] (alookup (fst kv) acc) ++ snd kv) acc.
 
 (* convert_module, data.rs:651-900 *)
+Definition e_bad_name := EOther (S_ "module-name").
+(* check_module_name (serde): a module name must not start with "context::" *)
+Definition name_ok (y : ymod) : res unit :=
+  match ym_name y with
+  | Some n => if is_prefix (S_ "context::") n then Err e_bad_name else Ok tt
+  | None => Ok tt
+  end.
+
 Definition convert_module (y : ymod) (context : option str) (is_binary : bool) (filename : str)
            (defaults : option module) : res module :=
   let m := init_module (ym_name y) context is_binary filename defaults in
+  rbind (name_ok y) (fun _ =>
   rbind (deps_of_specs (odflt [] (ym_selects y))) (fun sel1 =>
   rbind (rmapM dependency_from_string (odflt [] (ym_uses y))) (fun uses =>
   rbind (deps_of_specs (odflt [] (ym_depends y))) (fun depends =>
@@ -208,7 +218,7 @@ Definition convert_module (y : ymod) (context : option str) (is_binary : bool) (
         m_relpath := Some relpath; m_srcdir := Some srcdir;
         m_build_dep_files := m_build_dep_files m;
         m_is_build_dep := ym_is_build_dep y; m_is_global_build_dep := ym_is_global_build_dep y;
-        m_is_binary := is_binary; m_context_id := m_context_id m; m_defined_in := Some filename |}))))))).
+        m_is_binary := is_binary; m_context_id := m_context_id m; m_defined_in := Some filename |})))))))).
 
 (* convert_context, data.rs:463-620: the context and its context module *)
 Definition convert_context (y : yctx) (is_builder : bool) (filename : str) : res (context * module) :=
@@ -289,7 +299,9 @@ Fixpoint load_files (fuel : nat) (t : ytree) (pending : list finc) (pos : nat) (
       end
   end.
 
-(* defaults, data.rs:925-985. Panic 21: defaults with a context list; Panic 22: failing conversion *)
+(* defaults, data.rs:925-985 (after the C15 fix: a context list in defaults and a failing
+   conversion are errors; the pinned code panicked) *)
+Definition e_defaults := EOther (S_ "defaults").
 Definition get_defaults (d : ldoc) (dmap : list (nat * module)) (key_is_app : bool) : res (option module) :=
   let inherited := match ld_included_by d with
                    | Some i => match find (fun km => Nat.eqb (fst km) i) dmap with Some km => Some (snd km) | None => None end
@@ -298,12 +310,12 @@ Definition get_defaults (d : ldoc) (dmap : list (nat * module)) (key_is_app : bo
   match own with
   | Some y =>
       match ym_context y with
-      | CList _ => Panic 21
+      | CList _ => Err e_defaults
       | c =>
           let ctx := match c with CSingle s => Some s | _ => None end in
           match convert_module y ctx key_is_app (ld_file d) inherited with
           | Ok m => Ok (Some m)
-          | Err _ => Panic 22
+          | Err _ => Err e_defaults
           | Panic n => Panic n
           | Fuel => Fuel
           end
